@@ -874,6 +874,18 @@ func parseDeprecation(block *LineBlock, line *Line) string {
 // does have comments, the block's comments are used.
 func parseDirectiveComment(block *LineBlock, line *Line) string {
 	comments := line.Comment()
+	if block != nil && len(comments.Suffix) == 0 {
+		// Blank lines above the line are not comments of its own.
+		blank := true
+		for _, c := range comments.Before {
+			if strings.HasPrefix(c.Token, "//") {
+				blank = false
+			}
+		}
+		if blank {
+			comments = block.Comment()
+		}
+	}
 	if block != nil && len(comments.Before) == 0 && len(comments.Suffix) == 0 {
 		comments = block.Comment()
 	}
